@@ -4,6 +4,7 @@ import Driver.OpsClt
 import Driver.OpsXpc
 import DeeprobModel.Model.ToPcLoop
 import DeeprobModel.Model.XpcLoop
+import DeeprobModel.Model.TopoLoop
 /-
 Driver ops of the fifth wave of translated fragments (`Gen.S5…`: the explicit-stack loops of `BinaryCLT.to_pc` and
 `BinaryCLT.get_scopes`): the GENERATED loop is executed (what the current source says), printed like the model ops
@@ -19,6 +20,18 @@ Driver ops of the fifth wave of translated fragments (`Gen.S5…`: the explicit-
                                                                        (input as for the op `xpc`), `<text>` = canonical text of `pc_nodes_stack[0]`
                                                                        (`none` when the buffer is empty), printed like the model op `xpc`
   {"op":"s5_xpc_trace","use_clt":b,"det":b,"part":…}                 → stack ids / last / buffer size after every iteration of that loop
+  {"op":"s5_topo"}   (after a `net` op)                                → `none` or the node indices in the order the GENERATED `topological_order`
+                                                                       returns (`Gen.S5topoInit / RootGuard / Step / Result` iterated:
+                                                                       `Oblig.Struct5T.genTopo`), followed by ` queueempty=<b>` (the generated
+                                                                       `while queue:` loop has ended within the iterations run)
+  {"op":"kahn"}      (after a `net` op)                                → the same for the MODEL `Net.kahn` (`none` or the indices)
+  {"op":"s5_layers"} (after a `net` op)                                → the GENERATED `topological_order_layered` (`Gen.S5layered…` iterated:
+                                                                       `Oblig.Struct5T.genLayers`), printed like the model op `layers`
+  {"op":"s5_bfs"}  /  {"op":"s5_dfs"}  (after a `net` op)             → what the GENERATED generators `bfs` / `dfs_post_order` yield (`Gen.S5bfsStep`,
+                                                                       `Gen.S5dfsStep` iterated), followed by ` workempty=<b>` (the loop has ended)
+                                                                       (the MODEL node list `Net.collect` is the op `collect` of Main.lean)
+  {"op":"s5_topo_trace"} (after a `net` op)                            → queue / length of the ordering after every iteration of the generated
+                                                                       `while queue:` loop (until the queue is empty)
 -/
 open Lean Deeprob Deeprob.Driver
 
@@ -80,6 +93,38 @@ def handleStruct5 (op : String) (j : Json) : Option (Except String String) :=
           let s' := stepf s
           goX f s' (s!"{s'.1.map PostOrder.PTree.id};{s'.2.1.map PostOrder.PTree.id};{s'.2.2.length}" :: acc)
       pure (" | ".intercalate (goX (2 * PostOrder.sizeR t + 2) ([t], none, []) []))
+  | _ => none
+
+/-- the loops of `topological_order` / `topological_order_layered` (node.py) as generated, on the table of the last `net` op -/
+def handleStruct5Topo (net : Net Rat) (root : Nat) (op : String) (_j : Json) : Option (Except String String) :=
+  match op with
+  | "s5_topo" => some do
+      let qe := (Oblig.Struct5T.genTopoState net root).1.isEmpty
+      match Oblig.Struct5T.genTopo net root with
+      | none => pure s!"none queueempty={qe}"
+      | some ord => pure (natsStr ord ++ s!" queueempty={qe}")
+  | "kahn" => some do
+      match Net.kahn net root with
+      | none => pure "none"
+      | some ord => pure (natsStr ord)
+  | "s5_layers" => some do
+      let ok := Sched.reachOKB net root (Net.collect net root)
+      match Oblig.Struct5T.genLayers net root with
+      | none => pure s!"none reachOK={ok}"
+      | some L => pure ("|".intercalate (L.map natsStr) ++ s!" reachOK={ok}")
+  | "s5_bfs" => some do
+      pure (natsStr (Oblig.Struct5T.genBfs net root) ++ s!" workempty={(Oblig.Struct5T.genBfsState net root).1.isEmpty}")
+  | "s5_dfs" => some do
+      pure (natsStr (Oblig.Struct5T.genDfs net root) ++ s!" workempty={(Oblig.Struct5T.genDfsState net root).1.isEmpty}")
+  | "s5_topo_trace" => some do
+      let rec go (fuel : Nat) (s : List Nat × Oblig.Struct5T.Cnt × List Nat) (acc : List String) : List String :=
+        match fuel with
+        | 0 => acc.reverse
+        | f+1 =>
+          if s.1.isEmpty then acc.reverse else
+          let s' := Oblig.Struct5T.genTopoStep net s
+          go f s' (s!"{s'.1};{s'.2.2.length}" :: acc)
+      pure (" | ".intercalate (go (net.length + 2) ([root], Oblig.Struct5T.genTopoCounts net root, []) []))
   | _ => none
 
 end Deeprob.Driver
